@@ -109,6 +109,10 @@ def library(tier):
         {"id": "lib_terminate_session_and_stop", "kind": "script", "conns": [c(1, 4, "l10"), c(2, 5, "l11")],
          "steps": [S("connect", k=1), S("send", k=1, kind="connect"), S("connect", k=2), S("send", k=2, kind="connect"), S("send", k=1, kind="ok", n=3),
                    S("api", k=1, kind="terminate"), S("api", k=2, kind="publish"), S("send", k=2, kind="ping", n=2), S("stop")]},
+        # a connection accepted WHILE Stop runs (its OnAccept hook returns only after Stop has returned): it must be refused and
+        # closed, never registered behind Stop's back
+        {"id": "lib_accept_during_stop", "kind": "script", "conns": [c(1, 4, "l13")],
+         "steps": [S("armlate"), S("connect", k=1), S("stop"), S("send", k=1, kind="connect"), S("settle")]},
         {"id": "lib_gate_two_connects_stored_session", "kind": "gate", "conns": [c(1, 4, "g1", clean=False)]},
     ]
     if tier == "thorough":
